@@ -251,6 +251,14 @@ func runWatchLoop(
 		case <-debounce:
 			debounce = nil
 			verifhook.Event("rw.fire", "path", configPath)
+			// The callback reads the file itself. Only evaluate a fingerprint that still
+			// describes the file: if it moved on since the last reconciliation (its
+			// notification may be lost), debounce again instead of recording the old
+			// fingerprint as evaluated for content the callback never saw.
+			reconcile()
+			if debounce != nil {
+				continue
+			}
 			runCallback(observed)
 		case event, ok := <-events:
 			if !ok {
